@@ -17,6 +17,7 @@ func init() {
 type c08State struct {
 	code     uint64
 	suffix   string
+	didns    string // what precedes the suffix in the DIDs handed to the Sidetree client
 	upd, rec *opb.Key
 	keys     map[string]M
 	services map[string]M
@@ -425,7 +426,7 @@ func (s *c08State) stepUpdate(via string) M {
 	t, n := s.tn()
 	st := M{"via": via, "op": "update", "t": t, "n": n}
 	if via == "client" {
-		st["info"] = M{"did": "did:sidetree:" + s.suffix, "signer": signerCase(signer, headers), "nextUpdateKey": pubCoords(next),
+		st["info"] = M{"did": s.didns + ":" + s.suffix, "signer": signerCase(signer, headers), "nextUpdateKey": pubCoords(next),
 			"commitment": commitment, "code": s.code, "removeAka": strsI(remAka), "removeKeys": strsI(remKeys), "removeServices": strsI(remSvcs),
 			"addAka": strsI(addAka), "addServices": addSvcsIn, "addKeys": addKeysIn}
 	} else {
@@ -458,7 +459,7 @@ func (s *c08State) stepRecover(via string) M {
 	t, n := s.tn()
 	st := M{"via": via, "op": "recover", "t": t, "n": n}
 	if via == "client" {
-		info := M{"did": "did:sidetree:" + s.suffix, "signer": signerCase(signer, headers), "nextUpdateKey": pubCoords(nextU), "nextRecoveryKey": pubCoords(nextR),
+		info := M{"did": s.didns + ":" + s.suffix, "signer": signerCase(signer, headers), "nextUpdateKey": pubCoords(nextU), "nextRecoveryKey": pubCoords(nextR),
 			"commitment": commitment, "code": s.code, "keys": d.keysIn, "services": d.svcsIn, "aka": strsI(d.aka)}
 		if ao != nil {
 			info["anchorOrigin"] = ao
@@ -502,7 +503,7 @@ func (s *c08State) stepDeactivate(via string) M {
 	t, n := s.tn()
 	st := M{"via": via, "op": "deactivate", "t": t, "n": n}
 	if via == "client" {
-		st["info"] = M{"did": "did:sidetree:" + s.suffix, "signer": signerCase(signer, headers), "commitment": commitment}
+		st["info"] = M{"did": s.didns + ":" + s.suffix, "signer": signerCase(signer, headers), "commitment": commitment}
 	} else {
 		st["info"] = M{"didSuffix": s.suffix, "key": signer.JWK(), "signer": signerCase(signer, headers), "reveal": signer.Reveal(s.code),
 			"anchorFrom": w.From, "anchorUntil": w.Until}
@@ -652,7 +653,8 @@ func genC08(r *rand.Rand, n int, emit func(string)) {
 		}
 		cfg := BaseCfg()
 		cfg["multihashAlgorithms"] = []int{int(code)}
-		s := &c08State{code: code, r: r, keys: map[string]M{}, services: map[string]M{}}
+		s := &c08State{code: code, r: r, keys: map[string]M{}, services: map[string]M{},
+			didns: pick(r, []string{"did:sidetree", "did:sidetree", "did:sidetree:test", "did:bloc:trustbloc.dev"})}
 		via := pick(r, []string{"builder", "client"})
 		var steps []interface{}
 		add := func(st M) {
@@ -705,7 +707,7 @@ func genC08(r *rand.Rand, n int, emit func(string)) {
 		if r.Intn(2) == 0 {
 			try(s.stepDeactivate)
 		}
-		emit(proto.Line("lifecycle", M{"cfg": cfg, "ns": "did:sidetree", "code": code, "steps": steps, "sigs": s.sigs, "oracle": s.oracle, "uri": UriTable(deepCopy(steps))}))
+		emit(proto.Line("lifecycle", M{"cfg": cfg, "ns": s.didns, "code": code, "steps": steps, "sigs": s.sigs, "oracle": s.oracle, "uri": UriTable(deepCopy(steps))}))
 	}
 }
 
